@@ -213,6 +213,7 @@ theorem havBHand_eq (ra1 dec1 ra2 dec2 : ℝ) :
 /-- `R.min` at ℝ is `min` (the shared `R.real_min` is stated inside `namespace R`, where `min`
     resolves to `R.min` itself, so it is the trivial equation; this is the usable version) -/
 theorem real_min' (x y : ℝ) : (R.min x y : ℝ) = Min.min x y := rfl
+theorem real_max' (x y : ℝ) : (R.max x y : ℝ) = Max.max x y := rfl
 
 /-- degrees(2·arcsin(min 1 √a)) with `a = (1−d)/2` is `(180/π)·arccos d` -/
 theorem near_form (a d : ℝ) (ha : a = (1 - d) / 2) (h1 : -1 ≤ d) (h2 : d ≤ 1) :
